@@ -432,6 +432,26 @@ def fetch_width_rule(ctx, R3, X=None):
                                  'it has %d byte(s) and the value %#x' % (tok, used, (hex(int(val) % (1 << mbits)) if isinstance(val, int) else repr(val)), nbytes, want % (1 << mbits)), where(arch, ga))
     if n_tok < 12:
         raise AnalysisError('get_afs: only %d displacement reads could be evaluated' % n_tok)
+    # get_afs on the real ModRM tables (init_pre_modrm evaluated): for every ModRM byte of every addressing mode it consumes the SIB byte exactly when the entry is a SIB
+    # table, then the displacement the selected entry names, and returns that entry
+    DISP = {afs1.u08: 1, afs1.s08: 1, afs1.u16: 2, afs1.u32: 4}
+    for mode_name in ('u32', 'u16', 'mm', 'xmm'):
+        bad_m = None
+        n_m = 0
+        for m_, sib_, used_, got_, entry_ in X.get_afs_on_tables(mode_name):
+            n_m += 1
+            want_used = (1 if sib_ is not None else 0) + DISP.get(entry_.get(afs1.imm), 0)
+            same = isinstance(got_, dict) and set(got_) == set(entry_) and all(got_[k_] == entry_[k_] for k_ in entry_ if k_ != afs1.imm)
+            if (used_ != want_used or not same) and bad_m is None:
+                bad_m = (m_, sib_, used_, want_used, got_ if isinstance(got_, str) else ('another operand' if not same else 'the operand'))
+        inst = 'get_afs:tables:%s' % mode_name
+        if bad_m:
+            m_, sib_, used_, want_used, what_ = bad_m
+            R3.violation(inst, 'get_afs-tables:%s:%s' % (mode_name, what_ if isinstance(what_, str) and what_.startswith('raises') else 'bytes'), 'get_afs under %s addressing, ModRM %02X%s: consumes %d byte(s) '
+                         'after the ModRM byte and gives %s; the table entry takes %d' % (mode_name, m_, (' SIB %02X' % sib_) if sib_ is not None else '', used_, what_, want_used), where(arch, ga),
+                         witness='67 8b 04 (mov eax, [si])')
+        else:
+            R3.ok(inst, sample='get_afs under %s addressing: %d (ModRM, SIB) pairs read as the tables say' % (mode_name, n_m))
     # get_afs: table per mode -- the statements that choose the ModRM table are evaluated for every address mode
     from ..consteval import Evaluator as _Ev2, Obj as _Obj2, Native as _Nat2, NotConst as _NC2, PyRaise as _PR2
     pairs = {}
